@@ -115,8 +115,12 @@ pub fn check_tags(rep: &mut Report, rng: &mut Rng, parts: &[Vec<String>], label:
     }
     // the JSON entry point on the same parts
     if needed <= 300_000 {
+      for esc in [Esc::Minimal, Esc::AllULower] {
+        if esc != Esc::Minimal && needed > 4_000 {
+            continue;
+        }
         let mut text = vec![];
-        render_tags(parts, Esc::Minimal, &mut Gaps::new(&Ws::None), rng, &mut text);
+        render_tags(parts, esc, &mut Gaps::new(&Ws::None), rng, &mut text);
         for n in buffer_lengths(needed, rng).into_iter().filter(|n| *n + 12 >= needed || *n < 8 || needed <= 600) {
             let mut g = Guarded::new(n, 0xCC, under_miri());
             let r = catch(|| Tags::from_json(&text, g.slice()).map(|(_, t)| diff_tags(parts, t)));
@@ -143,6 +147,7 @@ pub fn check_tags(rep: &mut Report, rng: &mut Rng, parts: &[Vec<String>], label:
                 ),
             }
         }
+      }
     }
 }
 
@@ -226,8 +231,15 @@ pub fn check_event(rep: &mut Report, rng: &mut Rng, e: &SemEvent, label: &str) {
         }
     }
     // the JSON entry point: every buffer length around the required size
-    if needed < 400_000 {
-        let (text, _) = render_event(e, &EvRender::plain(), rng);
+    // (plain spelling, and - for small events - every character spelled as a `\u` escape, whose decoder has its own
+    // room checks per encoded length)
+    for esc in [Esc::Minimal, Esc::AllULower] {
+        if needed >= 400_000 || (esc != Esc::Minimal && needed > 4_000) {
+            continue;
+        }
+        let mut r = EvRender::plain();
+        r.esc = esc;
+        let (text, _) = render_event(e, &r, rng);
         let mut lens = buffer_lengths(needed, rng);
         lens.retain(|n| *n + 24 >= needed || *n < 200 || needed <= 600);
         for n in lens {
@@ -496,6 +508,21 @@ pub fn run(args: &Args) -> Report {
             let mut e = crate::c01::base_events().0;
             e.content = "\u{e9}".repeat(clen / 2);
             check_event(&mut rep, &mut rng, &e, "content-size+tags");
+        }
+        // strings that END in a 1-, 2-, 3- and 4-byte character, in the content and in the last tag string (the last
+        // thing written before the buffer ends)
+        for ch in ["a", "\u{e9}", "\u{20ac}", "\u{ffff}", "\u{1f600}"] {
+            for lead in ["", "x", "xy"] {
+                let mut e = e2.clone();
+                e.content = format!("{lead}{ch}");
+                e.tags = vec![];
+                check_event(&mut rep, &mut rng, &e, "last-character");
+                let mut e = e2.clone();
+                e.content = String::new();
+                e.tags = vec![vec!["t".into(), format!("{lead}{ch}")]];
+                check_event(&mut rep, &mut rng, &e, "last-character");
+                check_tags(&mut rep, &mut rng, &[vec![format!("{lead}{ch}")]], "last-character");
+            }
         }
         for tlen in [65000usize, 65535] {
             let mut e = e2.clone();
